@@ -237,8 +237,24 @@ func verdict(t drv.TB, part string, c Case, r result) {
 // genGraph draws a pipeline. Stage names are unique within a pipeline only: with reuse set, nested
 // pipelines use the same short names as their parents (ids, i.e. task names, stay unique).
 func genGraph(rt *rapid.T, prefix string, maxN, depth int, condErr bool) *Gr {
-	n := rapid.IntRange(1, maxN).Draw(rt, "n")
+	return genGraphN(rt, prefix, 1, maxN, depth, condErr)
+}
+
+func genGraphN(rt *rapid.T, prefix string, minN, maxN, depth int, condErr bool) *Gr {
+	n := rapid.IntRange(minN, maxN).Draw(rt, "n")
 	density := rapid.IntRange(0, 3).Draw(rt, "density")
+	if minN > 8 {
+		// wide graphs: few edges, so that many stages are eligible together
+		density = rapid.IntRange(0, 1).Draw(rt, "wide-density")
+	}
+	// how many of the stages run a nested pipeline: about a sixth, or (wide graphs) half or all of them
+	nestDen := 6
+	conds := true
+	if minN > 8 {
+		nestDen = rapid.SampledFrom([]int{6, 2, 1}).Draw(rt, "nested-share")
+		// stage conditions are commands that the scheduling pass runs itself: without them a pass over a wide front is quick
+		conds = rapid.Bool().Draw(rt, "stage-conditions")
+	}
 	reuse := rapid.Bool().Draw(rt, "reuse-stage-names-across-levels")
 	name := func(i int) string {
 		if reuse {
@@ -255,13 +271,25 @@ func genGraph(rt *rapid.T, prefix string, maxN, depth int, condErr bool) *Gr {
 			}
 		}
 		s.Outcome = rapid.SampledFrom([]int{OK, OK, OK, Fail, FailAllow, CondFalse}).Draw(rt, "o")
-		if s.Outcome != CondFalse && rapid.IntRange(0, 9).Draw(rt, "condtrue") == 0 {
+		if !conds && s.Outcome == CondFalse {
+			s.Outcome = OK
+		}
+		if conds && s.Outcome != CondFalse && rapid.IntRange(0, 9).Draw(rt, "condtrue") == 0 {
 			s.CondTrue = true
+		}
+		if rapid.IntRange(0, 3).Draw(rt, "task-attributes") == 0 {
+			s.Attr = rapid.IntRange(1, 15).Draw(rt, "attr")
+		}
+		// a dependency listed twice, next to its first mention or not
+		if len(s.Deps) > 0 && rapid.IntRange(0, 5).Draw(rt, "repeat-a-dependency") == 0 {
+			d := s.Deps[rapid.IntRange(0, len(s.Deps)-1).Draw(rt, "which-dep")]
+			at := rapid.IntRange(0, len(s.Deps)).Draw(rt, "repeat-at")
+			s.Deps = append(s.Deps[:at], append([]string{d}, s.Deps[at:]...)...)
 		}
 		if condErr && rapid.IntRange(0, 3).Draw(rt, "conderr") == 0 {
 			s.Outcome = CondErr
 		}
-		if depth > 0 && s.Outcome != CondErr && rapid.IntRange(0, 5).Draw(rt, "nest") == 0 {
+		if depth > 0 && s.Outcome != CondErr && rapid.IntRange(0, nestDen-1).Draw(rt, "nest") == 0 {
 			s.Nested = genGraph(rt, s.ID+"_", 3, depth-1, condErr)
 			s.Allow = rapid.Bool().Draw(rt, "allow")
 			if s.Outcome != CondFalse {
@@ -323,6 +351,23 @@ func TestRandom(t *testing.T) {
 		record(c, r)
 		drv.Sample(c)
 		verdict(rt, "random", c, r)
+	})
+}
+
+// TestWide: 17..40 stages with few edges and some nested pipelines, so that more stages are in flight together (over
+// all nesting levels) than any small fixed pool could hold: every eligible stage must still be started, the run must end.
+func TestWide(t *testing.T) {
+	rapid.Check(t, func(rt *rapid.T) {
+		if stopEarly {
+			return
+		}
+		c := Case{G: genGraphN(rt, "s", 17, 40, 1, false)}
+		drv.Pending("wide", c)
+		r := decide(&c, []Chooser{rapidChooser{rt}})
+		drv.Done()
+		record(c, r)
+		drv.Sample(c)
+		verdict(rt, "wide", c, r)
 	})
 }
 
